@@ -40,20 +40,24 @@ BEFORE_WRITE = {"read_notebook", "diff_notebooks", "decide", "apply", "serialise
 
 
 def budget(tier):
-    return 24 if tier == "quick" else 400
+    return 72 if tier == "quick" else 1200
 
 
 @st.composite
 def scenario(draw):
     base, local, remote, shape = draw(N.triple(max_cells=3))
     ph = draw(st.sampled_from(["none", "none", "none", "none", "base_null", "base_empty", "local_null", "remote_null", "both_null",
-                                "base_corrupt", "remote_corrupt", "local_corrupt"]))
+                                "base_corrupt", "remote_corrupt", "local_corrupt", "base_stdin"]))
     entry = draw(st.sampled_from(["nbmerge_out", "nbmerge_out", "driver", "driver", "nbmerge_stdout"]))
     args = draw(S.strategy_args(renderers=["git"]))
     if args["merge"] == "mergetool":
         args = S.default_args()
     prev = draw(st.sampled_from(["PREVIOUS BYTES\n", "", "{\"not\": \"a notebook\"}", "ÿþ binary-ish \x00\x01"]))
-    return {"base": base, "local": local, "remote": remote, "shape": shape, "placeholder": ph, "entry": entry, "args": args, "previous_output": prev}
+    # one case in three runs the whole single-fault set (about 40 child processes); the others only the clean run, which is what the
+    # placeholder / entry-point / strategy variety needs
+    full = draw(st.sampled_from([True, False, False]))
+    return {"base": base, "local": local, "remote": remote, "shape": shape, "placeholder": ph, "entry": entry, "args": args, "previous_output": prev,
+            "faults": full}
 
 
 def strategy(tier):
@@ -144,6 +148,11 @@ class Files:
             else:
                 nbformat.write(to_nb(case[name]), p)
                 self.paths[name] = p
+        self.stdin_file = None
+        if ph == "base_stdin":
+            # the base streamed in: `git show :1:nb.ipynb | nbmerge /dev/stdin ours theirs`
+            self.stdin_file = self.paths["base"]
+            self.paths["base"] = "/dev/stdin"
         self.out = os.path.join(self.top, "merged.ipynb")
         self.local_backup = None
         if self.paths["local"] != "/dev/null":
@@ -183,6 +192,8 @@ def library_result(case, files):
 
     def read(name):
         p = files.paths[name]
+        if p == "/dev/stdin":
+            p = files.stdin_file
         if p == "/dev/null" or os.path.getsize(p) == 0:
             return nbformat.v4.new_notebook()
         return nbformat.read(p, as_version=4)
@@ -220,8 +231,10 @@ def run_child(case, files, plan):
     else:
         env.pop("VP_OUTPUT_PATH", None)
     before = files.output_bytes(entry)
+    # (a streamed base arrives through a pipe, as in `git show :1:nb.ipynb | nbmerge /dev/stdin ours theirs`)
+    feed = {"input": open(files.stdin_file, "rb").read()} if files.stdin_file else {"stdin": subprocess.DEVNULL}
     p = subprocess.run([sys.executable, os.path.join(ROOT, "vp", "faults", "child.py"), planf, fired] + argv, cwd=files.top, env=env,
-                       stdout=subprocess.PIPE, stderr=subprocess.PIPE, timeout=600)
+                       stdout=subprocess.PIPE, stderr=subprocess.PIPE, timeout=600, **feed)
     return {"status": p.returncode, "stdout": p.stdout, "stderr": p.stderr[-400:], "fired": os.path.exists(fired), "before": before,
             "after": files.output_bytes(entry)}
 
